@@ -5,6 +5,7 @@ package gf2p16
 // MulByteSliceLE treats in and out as arrays of Ts stored in
 // little-endian format, and sets each out<T>[i] to c.Times(in<T>[i]).
 func MulByteSliceLE(c T, in, out []byte) {
+	verifNoteAccess(in, out)
 	if platformLittleEndian {
 		mulByteSliceLEPlatformLE(c, in, out)
 	} else {
@@ -16,6 +17,7 @@ func MulByteSliceLE(c T, in, out []byte) {
 // little-endian format, and adds c.Times(in<T>[i]) to out<T>[i], for
 // each i.
 func MulAndAddByteSliceLE(c T, in, out []byte) {
+	verifNoteAccess(in, out)
 	if platformLittleEndian {
 		mulAndAddByteSliceLEPlatformLE(c, in, out)
 	} else {
